@@ -32,7 +32,11 @@ type Matcher struct {
 	Meta   map[string]string // name -> "identifier" | "expression"
 	Greedy bool              // diagnostic mode: first occurrence, no backtracking (what the engine does today)
 	Steps  int               // work counter (guards against blow-up)
+	Limit  int               // when > 0: every match fails once Steps exceeds it (callers treat Steps > Limit as "gave up")
 }
+
+// StepLimit is the default work bound of a reference matcher.
+const StepLimit = 3_000_000
 
 // DotsID reports whether n is an elision placeholder (in any of its wrappers).
 func DotsID(n *N) (string, bool) {
@@ -82,6 +86,9 @@ func ForDotsID(p *N) (string, bool) {
 // returns true.
 func (p *Matcher) Match(pat, t *N, env *Env, k func(*Env) bool) bool {
 	p.Steps++
+	if p.Limit > 0 && p.Steps > p.Limit {
+		return false
+	}
 	if name, ok := IdentName(pat); ok {
 		if kind, isMeta := p.Meta[name]; isMeta {
 			if t.Kind == "leaf" || t.Kind == "[]" { // absent or a list
@@ -134,6 +141,9 @@ func (p *Matcher) matchSeq(ps, ts []*N, env *Env, k func(*Env) bool) bool {
 // MatchList matches a pattern list that may contain elisions against a code list.
 func (p *Matcher) MatchList(ps, ts []*N, env *Env, k func(*Env) bool) bool {
 	p.Steps++
+	if p.Limit > 0 && p.Steps > p.Limit {
+		return false
+	}
 	if len(ps) == 0 {
 		if len(ts) == 0 {
 			return k(env)
